@@ -42,8 +42,8 @@ EXC_TYPES = {"RetryError": _RetryError, "ValueError": ValueError, "VerifError": 
 
 
 def make_exception(spec):
-    """spec = [type name, [args...]]"""
-    return EXC_TYPES[spec[0]](*spec[1])
+    """spec = [type name, [args...]]; the argument "__unencodable__" stands for a value no JSON serializer can write"""
+    return EXC_TYPES[spec[0]](*[{1, 2} if a == "__unencodable__" else a for a in spec[1]])
 
 
 def digest(value) -> str:
@@ -165,3 +165,22 @@ def sig_b(x, y=None, *, z=0.5, w=None):
 
 def sig_c(only):
     return only
+
+
+# ---- enum values for the serializer domains (C05, C15) ----------------------------------------
+import enum as _enum
+
+
+class VPriority(_enum.IntEnum):
+    LOW = 1
+    HIGH = 3
+
+
+class VChannel(_enum.StrEnum):
+    MAIL = "mail"
+    SMS = "sms"
+
+
+class VKind(_enum.Enum):
+    A = "a"
+    B = 2
